@@ -66,6 +66,9 @@ def renamedView (f : JStr → JStr) (e : JStr × Entry) : JStr × Option JStr :=
   | .cls c => (remapEntryName f e.1, some (f c.name))
   | _ => (e.1, none)
 
+/-- what the property asks of a synthesised class when renaming: entry `<new name>.class` holding the class of that name -/
+def createdView (f : JStr → JStr) (name : JStr) : JStr × Option JStr := (f name ++ DOT_CLASS, some (f name))
+
 /-- no `;` and non-empty: what `map_desc` needs of a replacement name -/
 def cleanName (s : JStr) : Bool := !s.isEmpty && !s.contains MapDesc.SEMI
 
